@@ -239,7 +239,9 @@ def _r30_clamps(repo, sink):
         worst = None
         add = Sym("extra")
         for steps in (1, 2, 3):
-            reqs = [Sym("r", i) for i in range(5)]
+            base_reqs = [Sym("r", i) for i in range(4)]
+            # request times may repeat (a component pulling twice at one time): still one request each
+            reqs = [base_reqs[0], base_reqs[1], base_reqs[1], base_reqs[2], base_reqs[2], base_reqs[2], base_reqs[3]]
             me = Obj(cls=c, label="DelayToPull")
             me.fields.update(steps=steps, additional_delay=add, _pulls=[], initial_time=ini)
             hist = []
@@ -250,6 +252,8 @@ def _r30_clamps(repo, sink):
                 for rank_off, want in ((0, ini), (1, ini), (2, Sym("sub", base, add))):
                     o = Order()
                     o.name(ini, "init", 1)
+                    for j, rr in enumerate(base_reqs):
+                        o.name(rr, f"r{j}", 10 + j)
                     o.name(Sym("sub", base, add), "off", rank_off)
                     it = FinamInterp(repo, o)
                     trial = Obj(cls=c, label="DelayToPull")
@@ -269,6 +273,8 @@ def _r30_clamps(repo, sink):
                 # advance the real history: with_delay may initialise _pulls, then _pulled(r)
                 o = Order()
                 o.name(ini, "init", 1)
+                for j, rr in enumerate(base_reqs):
+                    o.name(rr, f"r{j}", 10 + j)
                 first = me.fields["_pulls"][0] if me.fields["_pulls"] else ini
                 o.name(Sym("sub", first, add), "off", 2)
                 it = FinamInterp(repo, o)
